@@ -141,6 +141,7 @@ fn exec_inner(prop: &str, line: &str) -> CaseResult {
         "encode_value" => op_encode_value(line, args),
         "roundtrip" => op_roundtrip(prop, line, args),
         "parse" => op_parse(prop, line, args),
+        "tagpos" => op_tagpos(line, args),
         _ => crate::exec2::exec2(prop, &op, line, args).unwrap_or_else(|| bad(line, "unknown-op")),
     })
 }
@@ -226,7 +227,7 @@ fn op_roundtrip(prop: &str, line: &str, args: &[SExp]) -> CaseResult {
     let mut all = bytes.to_vec();
     all.extend_from_slice(&payload);
     let (ptext, badkey) = parsed_text(parse_flat(&all));
-    let expect = format!("(ok {} rest={})", show_msg(&crate::gen::canonical(&m)), hex(&payload));
+    let expect = format!("(ok {} rest={})", show_msg(&crate::gen::wire_normal_form(&m)), hex(&payload));
     let mut oracle = None;
     if ptext != expect {
         oracle = Some(format!("round trip differs: parsed {} expected {}", clip(&ptext), clip(&expect)));
@@ -249,6 +250,33 @@ pub fn clip(s: &str) -> String {
     } else {
         s.to_string()
     }
+}
+
+/// `tagpos OFFSET HEX`: the byte at OFFSET stands where a tag is expected (by construction of the case).  When it is
+/// outside the delimiter range 0x01-0x05 and the value-tag range 0x10-0x4a both parsers must reject the message
+/// naming that byte; a parser that accepts has skipped it.
+fn op_tagpos(line: &str, args: &[SExp]) -> CaseResult {
+    let (pos, bytes) = match (args.first().and_then(|a| a.atom()).and_then(|s| s.parse::<usize>().ok()), args.get(1).and_then(|a| a.atom()).and_then(unhex)) {
+        (Some(p), Some(b)) if p < b.len() => (p, b),
+        _ => return bad(line, "tagpos"),
+    };
+    let b = bytes[pos];
+    let (ptext, _) = parsed_text(parse_flat(&bytes));
+    let (atext, _) = parsed_text(parse_flat_async(&bytes));
+    let mut oracle = None;
+    let in_range = (0x01..=0x05).contains(&b) || (0x10..=0x4a).contains(&b);
+    if !in_range {
+        let want = format!("(err tag {:02x})", b);
+        if ptext != want {
+            oracle = Some(format!("byte 0x{:02x} at offset {} where a tag is expected: the blocking parser answers {} instead of rejecting it", b, pos, clip(&ptext)));
+        } else if atext != want {
+            oracle = Some(format!("byte 0x{:02x} at offset {} where a tag is expected: the async parser answers {} instead of rejecting it", b, pos, clip(&atext)));
+        }
+    } else if atext != ptext {
+        oracle = Some(format!("async parser differs: {} vs {}", clip(&atext), clip(&ptext)));
+    }
+    let class = outcome_class(&ptext);
+    CaseResult { line: line.into(), result: ptext, oracle, class }
 }
 
 fn op_parse(prop: &str, line: &str, args: &[SExp]) -> CaseResult {
